@@ -48,6 +48,7 @@ package analyzer
 //@ func CheckBalance
 //@   props C02 C06 C15
 //@   requires tx != nil
+//@   ensures [nonnil] result != nil && fresh(result)
 //@   ensures [multi] rninf(tx.Postings, len(tx.Postings)) > 1 ==> !result.Balanced && result.InferredIdx == 0 - 1 && (forall c string :: !has(result.Differences, c))
 //@   ensures [one] rninf(tx.Postings, len(tx.Postings)) == 1 ==> result.Balanced
 //@   ensures [zero_bal1] rninf(tx.Postings, len(tx.Postings)) == 0 && result.Balanced ==> (forall c string :: rresid(tx.Postings, len(tx.Postings), c) == 0.0)
@@ -145,7 +146,58 @@ package analyzer
 //@   loop 1 invariant fresh(seen) && seen != nil
 
 // Entry points of the analyzer as seen from the server (bodies not verified here).
+//@ pred DiagsOK(r) := forall k int :: {r.Diagnostics[k]} 0 <= k && k < len(r.Diagnostics) ==> r.Diagnostics[k].Range.Start.Line >= 1 && r.Diagnostics[k].Range.Start.Column >= 1 && r.Diagnostics[k].Range.End.Line >= 1 && r.Diagnostics[k].Range.End.Column >= 1 && r.Diagnostics[k].Range.Start.Line <= 4294967296 && r.Diagnostics[k].Range.Start.Column <= 4294967296 && r.Diagnostics[k].Range.End.Line <= 4294967296 && r.Diagnostics[k].Range.End.Column <= 4294967296
+//@ trusted (*Analyzer).AnalyzeWithExternalDeclarations
+//@   ensures result != nil && DiagsOK(result)
 //@ trusted (*Analyzer).Analyze
-//@   ensures result != nil
+//@   ensures result != nil && DiagsOK(result)
 //@ trusted (*Analyzer).AnalyzeResolved
 //@   ensures result != nil
+
+// ---- C18: declared sets are the union of the file's own declarations and the external ones; external maps are read-only ----
+// (analyzeInternal has no modifies clause: a write to external.Accounts / external.Commodities - maps that the workspace
+// hands out from its cache - fails frame.map_write.)
+
+//@ specfun declAcc(j *ast.Journal, k string) bool
+//@ specfun declCom(j *ast.Journal, k string) bool
+
+//@ trusted collectDeclaredAccounts
+//@   ensures result != nil && fresh(result) && (forall k string :: {result[k]} result[k] <==> declAcc(journal, k))
+//@ trusted collectDeclaredCommodities
+//@   ensures result != nil && fresh(result) && (forall k string :: {result[k]} result[k] <==> declCom(journal, k))
+//@ trusted CollectTagValues
+//@   ensures fresh(result)
+//@ trusted CollectDates
+//@   ensures fresh(result) || len(result) == 0
+//@ trusted CollectPayeeTemplates
+//@   ensures fresh(result)
+//@ trusted CollectAccountCounts
+//@   ensures fresh(result)
+//@ trusted CollectPayeeCounts
+//@   ensures fresh(result)
+//@ trusted CollectCommodityCounts
+//@   ensures fresh(result)
+//@ trusted CollectTagCounts
+//@   ensures fresh(result)
+//@ trusted validateDateTags
+//@   ensures fresh(result) || len(result) == 0
+//@ trusted checkUndeclaredAccounts
+//@   ensures fresh(result) || len(result) == 0
+
+//@ func (*Analyzer).analyzeInternal
+//@   props C18 C02
+//@   requires journal != nil
+//@   ensures [nonnil] result != nil && fresh(result)
+//@   ensures [C18:union_accounts] forall k string :: {declaredAccounts[k]} declaredAccounts[k] <==> (declAcc(journal, k) || has(external.Accounts, k))
+//@   ensures [C18:union_commodities] forall k string :: {declaredCommodities[k]} declaredCommodities[k] <==> (declCom(journal, k) || has(external.Commodities, k))
+//@   loop 1 modifies declaredAccounts[*]
+//@   loop 1 invariant declaredAccounts != nil && fresh(declaredAccounts) && declaredAccounts != external.Accounts && result != nil && fresh(result)
+//@   loop 1 invariant forall k string :: {declaredAccounts[k]} declaredAccounts[k] <==> (declAcc(journal, k) || (iterseen[k] && has(external.Accounts, k)))
+//@   loop 1 invariant forall k string :: iterseen[k] ==> has(external.Accounts, k)
+//@   loop 2 modifies declaredCommodities[*]
+//@   loop 2 invariant declaredCommodities != nil && fresh(declaredCommodities) && declaredCommodities != external.Commodities && declaredAccounts != nil && fresh(declaredAccounts) && declaredCommodities != declaredAccounts && result != nil && fresh(result)
+//@   loop 2 invariant forall k string :: {declaredCommodities[k]} declaredCommodities[k] <==> (declCom(journal, k) || (iterseen[k] && has(external.Commodities, k)))
+//@   loop 2 invariant forall k string :: iterseen[k] ==> has(external.Commodities, k)
+//@   loop 3 invariant 0 - 1 <= rangeindex && rangeindex <= len(journal.Transactions) - 1 && result != nil && fresh(result) && declaredAccounts != nil && declaredCommodities != nil && fresh(declaredAccounts) && fresh(declaredCommodities)
+//@   loop 3 invariant forall k string :: {declaredAccounts[k]} declaredAccounts[k] <==> (declAcc(journal, k) || has(external.Accounts, k))
+//@   loop 3 invariant forall k string :: {declaredCommodities[k]} declaredCommodities[k] <==> (declCom(journal, k) || has(external.Commodities, k))
